@@ -43,6 +43,7 @@ type Proc struct {
 	probes        []*Obligation
 	callProbes    []*Obligation
 	loopFrame     map[string]map[string]bool
+	asyncCall     bool
 	pureDepth     int
 	heapReads     int
 	forceMerge    bool
